@@ -120,6 +120,14 @@ def run_property(prop, tier="quick", seed=0, replay=None, search_budget=None):
     rng = random.Random(seed * 1000003 + sum(map(ord, pid)))
     problems = []       # broken ties / obligations (strings)
     ev = {"property_id": pid, "tier": tier, "seed": seed, "level": prop.level}
+    # which tree was checked, and when
+    try:
+        rc = core.run(["git", "-C", core.REPO, "rev-parse", "--short", "HEAD"]).stdout.strip()
+        dirty = bool(core.run(["git", "-C", core.REPO, "status", "--porcelain"]).stdout.strip())
+        ev["repo"] = {"path": core.REPO, "commit": rc, "working_tree_dirty": dirty}
+    except Exception:
+        ev["repo"] = {"path": core.REPO}
+    ev["generated_at"] = time.strftime("%Y-%m-%dT%H:%M:%SZ", time.gmtime())
     cov = {}
     # ---- 1-3: regenerate, prove, audit, build harness (serialised across processes)
     with core.Lock():
@@ -273,11 +281,18 @@ def _run_scripts(prop, tier, seed, rng, replay, problems, ev, cov, names, discha
                     if o1 is None or any(x != "pass" and x != "#" for x in o1):
                         return True
             return False
-        for lst in (violations, disagreements):
+        # An ORACLE failure is a fact about an execution of the real code that did happen (the replay file
+        # carries the implementation's answers): it stays a violation even when it does not repeat — the
+        # defects behind 7d9bd97 and 28593c9 showed up in one run out of many.  Only a bare model/implementation
+        # difference that never repeats is set aside as a transient.
+        for lst, sticky in ((violations, True), (disagreements, False)):
             keep = []
             for ent in lst:
                 if ent[0] is fam and len([e for e in keep if e[0] is fam]) < 12 and not reproduces(ent[1]):
-                    transients.append({"family": fam.name, "note": ent[5], "script": ent[1][:60]})
+                    if sticky:
+                        keep.append(ent[:5] + (ent[5] + " [observed in this run; did not repeat in 3 fresh runs of the script: schedule- or value-dependent]",))
+                    else:
+                        transients.append({"family": fam.name, "note": ent[5], "script": ent[1][:60]})
                 else:
                     keep.append(ent)
             lst[:] = keep
@@ -307,7 +322,11 @@ def _run_scripts(prop, tier, seed, rng, replay, problems, ev, cov, names, discha
             if sig in seen:
                 continue
             seen.add(sig)
-            small, sm, si, so = shrink(model_bin, impl_bin, fam, lines, mode="oracle", sig=sig)
+            if "did not repeat in 3 fresh runs" in note:
+                # keep the answers of the run in which it happened: a fresh run would not show it
+                small, sm, si, so = lines, m, i, o
+            else:
+                small, sm, si, so = shrink(model_bin, impl_bin, fam, lines, mode="oracle", sig=sig)
             path = write_replay(pid, fam.name, small, sm, si, so, note)
             reported.append(path)
             out_lines.append(f"VIOLATION property={pid} replay={path}")
